@@ -29,7 +29,7 @@ RULE = ('three families. (1) small generated uamiv files (1-2 species, 1-2 layer
         'block boundary +-{0..4} bytes and random offsets; oracle: leading steps identical to the full file, or - for a '
         'cut at a block boundary inside the first step, where the prefix is itself a valid file with fewer tracers - '
         'identical data of the tracers present. (4) wind (Memmap reader): cuts around every step boundary and random offsets, '
-        'oracle as above plus "returns within 5 s"; (5) lateral boundary files (Memmap reader, mode r and r+ alternating): cuts around every record boundary and random offsets; oracle as above plus "the file on disk keeps its size"; non-trivial = cut inside the time-step region')
+        'oracle as above plus "returns within 5 s"; (5) lateral boundary files (Memmap reader, mode r and r+ alternating): cuts around every record boundary and random offsets; oracle as above plus "the file on disk keeps its size"; non-trivial = cut inside the time-step region; bpch prefixes in modes r and r+ (the file on disk keeps its size); wind: both header variants on every run, cuts at every record boundary of the first two steps')
 ASSUMPTIONS = ['numpy.memmap raises when offset+shape exceeds the file (modelled as error)',
                'the theorems are about the uamiv (prefix_safe, odd_cut_raises), slab (slab_prefix_safe), wind (wind_prefix_safe) and lateral-boundary (boundary_prefix_safe) reader models; each model is tied to its reader by the '
                'correspondence on every cut point; bpch by the oracle only; cloud_rain is not in this check (its variable count is not stored: some prefixes are valid files of the other variant)']
